@@ -5,23 +5,25 @@ Theorems: lean/I18nVerif/Theorems/C16.lean.  Correspondence: harness ctx_h (`ops
 `Context.Spec.observations`, compared with the implementation's observation after every step."""
 from .common import *
 
-RULE = ("random operation sequences (1..200 operations) over {make_memo(view, kind in locale/t_string/td_string), "
+RULE = ("random operation sequences (1..200 operations) over {make_memo(view, kind in locale/t_string/td_string/t_display/t_plural), "
         "read_memo(i), provide_root (the real <I18nContextProvider>), child_owner(owner), provider(owner, optional initial "
         "locale) (the real <I18nSubContextProvider>, children capture use_i18n() and their owner), use_ctx(owner), and the "
         "composite pattern 'set_locale_untracked(x); set_locale(x) through a view of the same context; read earlier memos'} "
         "in MIXED sequences with {new_root, sub(parent view or none, optional initial locale), "
         "scope(view), set(view, locale), set_untracked(view, locale), get(view), get_untracked(view), "
-        "make_closure(view, kind in t/t_string/tu_string/t_display/td_string), call_closure(i)} on a growing forest of "
+        "make_closure(view, kind in t/t_string/tu_string/t_display/td_string/t_plural), call_closure(i)} on a growing forest of "
         "contexts; a quarter of the sequences use tracked sets only and also derive `Memo`s from the contexts; plus hand-written sequences (deep sub-context chains, scope cycles root->sub->deep->root keys, closures "
         "created before many sets); after every step the implementation's observation is compared with the model's and the "
         "specification's, and at the end every view is read back; non-trivial = the sequence contains a set after which some "
         "view or closure of the same context is observed; distinct = distinct sequences")
 
-KINDS = ["t", "t_string", "tu_string", "t_display", "td_string"]
+KINDS = ["t", "t_string", "tu_string", "t_display", "td_string", "t_plural"]
 PREFIX = {0: "hello_", 1: "inner_", 2: "leaf_"}
 
 
-MEMO_KINDS = ["locale", "t_string", "td_string"]
+MEMO_KINDS = ["locale", "t_string", "td_string", "t_display", "t_plural"]
+# CLDR cardinal category of 0 (the count the harness gives to `t_plural!`): `one` in French, `other` in English and German
+CAT0 = {"en": "other", "en-US": "other", "de": "other", "fr": "one", "fr-CA": "one"}
 
 
 def gen_sequence(rng, names, maxlen, tracked_only=False):
@@ -270,6 +272,8 @@ def impl_obs(step, o, levels, idx, mlevels=None):
     if op == "read_memo":
         level, kind = mlevels[step["memo"]]
         text = o["text"]
+        if kind == "t_plural":
+            return {"plural0": text}, None
         if kind == "locale":
             if text not in idx:
                 return {"text": text}, f"memo over get_locale() returned {text!r}"
@@ -293,11 +297,14 @@ def impl_obs(step, o, levels, idx, mlevels=None):
     if op in ("get", "get_untracked"):
         return {"locale": idx[o["locale"]]}, None
     if op == "make_closure":
-        levels.append(o["level"])
+        levels.append((o["level"], step["kind"]))
         return {"closure": o["closure"]}, None
     if op == "call_closure":
-        pre = PREFIX[levels[step["closure"]]]
+        level, kind = levels[step["closure"]]
+        pre = PREFIX[level]
         text = o["text"]
+        if kind == "t_plural":
+            return {"plural0": text}, None
         if not text.startswith(pre) or text[len(pre):] not in idx:
             return {"text": text}, f"closure rendered {text!r}, not a {pre}<locale> text"
         return {"locale": idx[text[len(pre):]]}, None
@@ -333,11 +340,16 @@ def evaluate(ctx, binr, names, idx, seqs, record=True):
         spec_bad = model_bad = None
         for k, (st, o) in enumerate(zip(s, r["obs"])):
             io, err = impl_obs(st, o, levels, idx, mlevels)
-            if err or io != m["spec"][k]:
-                spec_bad = (k, io, m["spec"][k], err)
+            so, mo = m["spec"][k], m["model"][k]
+            if isinstance(io, dict) and "plural0" in io:
+                # `t_plural!` accessors show the plural category of 0 in the locale the spec / the model says is current
+                so = {"plural0": CAT0[names[so["locale"]]]} if isinstance(so, dict) and "locale" in so else so
+                mo = {"plural0": CAT0[names[mo["locale"]]]} if isinstance(mo, dict) and "locale" in mo else mo
+            if err or io != so:
+                spec_bad = (k, io, so, err)
                 break
-            if io != m["model"][k]:
-                model_bad = (k, io, m["model"][k])
+            if io != mo:
+                model_bad = (k, io, mo)
                 break
         if not spec_bad and not model_bad:
             fin = [idx[x] for x in r["final"]]
@@ -378,7 +390,7 @@ def run(ctx):
     idx = {n: i for i, n in enumerate(names)}
     rng = ctx.rng
     seqs = corpus(names)
-    nseq = ctx.budget(300, 10000)
+    nseq = ctx.budget(1500, 20000)
     for i in range(nseq):
         # a third short (dense interaction on few contexts), the rest up to 200 operations
         seqs.append(gen_sequence(rng, names, 40 if i % 3 == 0 else 200, tracked_only=(i % 4 == 1)))
